@@ -1185,9 +1185,10 @@ def torch_gather(interp, t, dim, index):
 
 
 @lib("torch.unique", "numpy.unique")
-def torch_unique(interp, t, sorted=True, return_inverse=False, return_counts=False, dim=None, axis=None):
-    """Sorted distinct values of a small concrete-length integer vector (values must be
-    concrete on the path)."""
+def torch_unique(interp, t, sorted=True, return_inverse=False, return_counts=False, dim=None, axis=None, return_index=False):
+    """Sorted distinct values of a vector of concrete length (docs: numpy.unique / torch.unique):
+    optionally the index of the FIRST occurrence of each (numpy `return_index`), the inverse
+    mapping and the counts.  Symbolic values are ordered / compared by path forks."""
     is_np = not isinstance(t, STensor) or t.kind == "numpy"
     if not isinstance(t, STensor):
         t = T.from_nested(list(t), INT) if len(t) else T.from_flat([0], [], INT)
@@ -1195,23 +1196,50 @@ def torch_unique(interp, t, sorted=True, return_inverse=False, return_counts=Fal
     n = flat.shape[0]
     if not isinstance(n, int):
         raise Unsupported("unique() of a symbolic-length tensor")
+    if return_index and not is_np:
+        raise PyExc("TypeError", ("unique() got an unexpected keyword argument 'return_index'",))
     rd = flat.reader()
     vals = [rd([i]) for i in range(n)]
-    if not all(isinstance(v, (int, float)) and not isinstance(v, bool) for v in vals):
-        raise Unsupported("unique() of symbolic values")
-    import builtins
-
-    u = builtins.sorted(set(vals))
     kind = "numpy" if is_np else "torch"
-    out = T.from_flat([len(u)], u, t.dtype, kind=kind)
-    if not (return_inverse or return_counts):
+    if all(isinstance(v, (int, float)) and not isinstance(v, bool) for v in vals):
+        order = builtins_sorted(range(n), key=lambda i: vals[i])
+        same = lambda a, b: vals[a] == vals[b]
+    else:
+        if n > 6:
+            raise Unsupported("unique() of %d symbolic values" % n)
+        from .lib_numpy import np_argsort
+
+        orr = np_argsort(interp, flat, kind="stable").reader()
+        order = [orr([i]) for i in range(n)]
+        eq = V.f_eq if flat.dtype == FLOAT else V.i_eq
+        same = lambda a, b: interp.truth(eq(vals[a], vals[b]))
+    groups = []            # lists of original indices with equal values, ascending by value
+    for i in order:
+        if groups and same(groups[-1][0], i):
+            groups[-1].append(i)
+        else:
+            groups.append([i])
+    out = T.from_flat([len(groups)], [vals[g[0]] for g in groups], flat.dtype, kind=kind)
+    if not (return_inverse or return_counts or return_index):
         return out
     res = [out]
+    if return_index:
+        res.append(T.from_flat([len(groups)], [min(g) for g in groups], INT, kind=kind))
     if return_inverse:
-        res.append(T.from_flat([n], [u.index(v) for v in vals], INT, kind=kind))
+        inv = [0] * n
+        for gi, g in enumerate(groups):
+            for i in g:
+                inv[i] = gi
+        res.append(T.from_flat([n], inv, INT, kind=kind))
     if return_counts:
-        res.append(T.from_flat([len(u)], [vals.count(v) for v in u], INT, kind=kind))
+        res.append(T.from_flat([len(groups)], [len(g) for g in groups], INT, kind=kind))
     return tuple(res)
+
+
+def builtins_sorted(it, key=None):
+    import builtins
+
+    return builtins.sorted(it, key=key)
 
 
 @method("unique")
